@@ -264,6 +264,9 @@ func buildMessage(m *Message, fqPrefix string) *descriptorpb.DescriptorProto {
 			JsonName: proto.String(jsonName(f.Name)),
 			Label:    descriptorpb.FieldDescriptorProto_LABEL_OPTIONAL.Enum(),
 		}
+		if f.JSONName != "" {
+			fd.JsonName = proto.String(f.JSONName)
+		}
 		switch f.Card {
 		case "repeated":
 			fd.Label = descriptorpb.FieldDescriptorProto_LABEL_REPEATED.Enum()
